@@ -182,6 +182,11 @@ func (x *Exec) invoke(st *State, recv SVal, recvT types.Type, method string, sig
 		// interface contract of Observable: the returned Subscription is never nil
 		st.assume(not(eq(res[0].T, "nil")))
 	}
+	if method == "Read" && len(args) == 1 && args[0].K == KSlice && len(res) == 2 && res[0].K == KInt {
+		// assumed contract of io.Reader (T4): 0 <= n <= len(p)
+		st.assume("(>= " + res[0].T + " 0)")
+		st.assume("(<= " + res[0].T + " " + args[0].Len + ")")
+	}
 	for i := range res {
 		if res[i].K == KU {
 			res[i].Src = name + "." + method + "()"
